@@ -197,6 +197,17 @@ CHECKS = {
              'sequence must carry an error on the parent element.',
         design_ref='DESIGN.md section 2, C01',
         note='Trusted: mc/ref/regex.py and mc/ref/glushkov.py. Open content is judged only where the existential and the model-first reading agree. Known findings are listed per (model, wrong words).'),
+    'C05': dict(
+        technique='exhaustive enumeration of every content-model word x value deviations x converters x options; every single (and pair) mutation of decoded data for encoder soundness',
+        text='Model checking by bounded exhaustive enumeration: 29 schema templates (nesting, attributes, simple content, 5 mixed-content variants, lists incl. empty, two namespaces, '
+             'contiguous and non-contiguous repeats, nillable, choice, all); valid instances = EVERY word of length <= 4 of each content model (from the reference DFA) x a 3-value '
+             'catalogue per type with <= 2 value deviations; converters JsonML and DataElement judged everywhere, default/BadgerFish/GData on models whose same-named children are '
+             'contiguous (decided on the reference automaton), the lossy ones explored and counted; converter options with a joint deviation bound. encode(decode(d)) must be valid, '
+             'structurally equal in value space and decode to the same data. Encoder soundness: EVERY single mutation (drop, duplicate, swap, retype, rename; pairs in thorough) of every '
+             'decoded datum must either raise a validation error or yield XML the schema accepts.',
+        design_ref='DESIGN.md section 2, C05',
+        note='Trusted: mc/ref/regex.py (instance enumeration and contiguity), the plain-Python value readers of mc/gen/docs_c05.py. Known findings: text after repeated same-named children under a '
+             'repeated choice re-encoded elsewhere; malformed data shapes raising KeyError/IndexError/AttributeError/TypeError instead of a validation error; text encoded into empty content.'),
 }
 
 READY = {'C01', 'C02', 'C03', 'C04', 'C05', 'C06', 'C11', 'C20', 'C07', 'C08', 'C09', 'C10', 'C12', 'C13', 'C14', 'C15', 'C16', 'C17', 'C18', 'C19'}   # set of property ids to register; None = all of CHECKS
